@@ -336,7 +336,14 @@ pub fn execute(h: &History, want: &str, rep: &mut Report) -> Option<Violation> {
                     if e.is_finite() && tol > 0.0 && e / tol > max_recon {
                         max_recon = e / tol;
                     }
-                    let kept_here = note == prev.unwrap_or(255) && kept;
+                    // "the hysteresis window kept the previous note" can only be told from outside when the input as
+                    // given and its clamped value (C19 lets an out-of-range input stand for either) both lie inside the
+                    // window; otherwise the same note may just as well be the history-free result
+                    let clamped_in_window = prev.map(|p| {
+                        let c = v64.clamp(0.0, 10.0);
+                        c > p as f64 / 12.0 - HYST && c < p as f64 / 12.0 + SEMI + HYST
+                    }).unwrap_or(false);
+                    let kept_here = note == prev.unwrap_or(255) && kept && clamped_in_window;
                     if kept_here && !(fr >= -HYST - 2e-6 && fr <= SEMI + HYST + 2e-6) {
                         fail!("C19", "fraction-window", format!("convert({}) kept note {} by hysteresis but the fraction {} is outside [-0.1, 1.1] semitone", v, note, c.fraction), i);
                     }
